@@ -150,7 +150,6 @@ def main(prop, tier="quick", seed=0, replay=None, only=None, jobs=None):
                rule=getattr(mod, "RULE", ""))
     if level == "model_checking":
         cov.update(states=tot["states"], transitions=tot["transitions"], traces_validated_against_impl=tot["conformed"])
-        cov.update(evaluations=tot["transitions"], distinct_nontrivial=tot["states"])
     else:
         cov.update(evaluations=tot["evaluations"], distinct_nontrivial=tot["distinct"])
         if tot["states"]:
